@@ -272,6 +272,27 @@ func c10Worker(args []string) {
 			rep.Calls++
 		}
 	}
+	// thousands of different patterns, strings and keys in one process (whatever the engine
+	// caches or interns as it goes along, it does so quietly): patterns built at run time for
+	// match / replace / split / ~= / regexp case arms, in one script and spread over many
+	marker("CALL/many-distinct-patterns/0")
+	for i, script := range []string{
+		`n = 0; foreach i in 1..2600 { if (match("id-" + string(i), "^id-" + string(i) + "$")) { n++; } } return n;`,
+		`n = 0; foreach i in 1..1500 { s = replace("a" + string(i) + "b", "[0-9]+x{0," + string(i % 900) + "}b" + string(i) + "?", "-"); if (("k" + string(i)) ~= ("^k" + string(i))) { n++; } } return n;`,
+		`n = 0; foreach i in 1..1200 { p = split("a" + string(i) + "b", string(i)); switch ("v" + string(i)) { case "w" { n = 0; } default { n++; } } h = {}; } return n;`,
+	} {
+		if evr, err := eng.New(script, eng.Options{NoHook: true, NoOptimize: i%2 == 0}); err == nil {
+			evr.Exec(map[string]interface{}{"Path": canary})
+			rep.Calls++
+		}
+	}
+	for i := 0; i < 1500; i++ {
+		script := fmt.Sprintf("a = Path ~= /^q%dz[a-f]*$/i; b = match(\"n%d\", \"^n%d$\"); switch (\"s%d\") { case /^s%d$/ { return b; } } return a;", i, i, i, i, i)
+		if evr, err := eng.New(script, eng.Options{Budget: 100000, NoOptimize: i%2 == 0}); err == nil {
+			evr.Exec(map[string]interface{}{"Path": canary})
+			rep.Calls++
+		}
+	}
 	// scripts stopped by their context (expired before the run, cancelled in mid-run, inside
 	// a user function): an error comes back, and that is all that happens
 	marker("CALL/stopped-by-context/0")
